@@ -157,7 +157,37 @@ def int_dec(s):
             raise ValueError("invalid literal for int() with base 10")
         d = c - 48 if isinstance(c, int) else SymInt.make(z3.ZeroExt(1, z3.Extract(7, 0, c - 48)), 0, 9)
         acc = binop("+", binop("*", acc, 10), d)
+    if isinstance(acc, SymInt):
+        register_decimal(acc, s.cells)
     return acc
+
+
+def register_decimal(v, cells):
+    """remember that the int `v` is the value of the decimal digit cells `cells` (21-bit code points): rendering it
+    again needs no arithmetic. (BV solvers do not decide uniqueness of an 8-digit decimal representation within
+    minutes — measured — while this provenance makes str(int(str)) the identity it is.)"""
+    Ctx.cur.__dict__.setdefault("dec_cache", []).append((v, list(cells)))
+
+
+def _lookup_decimal(v):
+    ctx = Ctx.cur
+    for w, cells in reversed(ctx.__dict__.get("dec_cache", [])[-6:]):
+        if w.e.get_id() == v.e.get_id():
+            return cells
+        ne = SymInt.cmp("!=", v, w)
+        if ne is False:
+            return cells
+        if ne is True:
+            continue
+        ctx.solver.set("timeout", 3000)
+        try:
+            r = ctx.solver.check(ne.e)
+        finally:
+            ctx.solver.set("timeout", symx.QUERY_TIMEOUT_MS)
+        ctx.nq += 1
+        if r == z3.unsat:
+            return cells
+    return None
 
 
 _IntShim_new = symx.IntShim.__new__
@@ -292,20 +322,45 @@ def m_str(x="", *a):
     return str(x, *a)
 
 
+def _digits(v, nd, base):
+    """nd fresh digit cells d with v == sum d_i * base^i (most significant first). Decimal/hex digits are *defined* by
+    this linear relation (unique representation), which avoids division by constants in the solver."""
+    ctx = Ctx.cur
+    name = ctx.fresh("digits%d" % base)
+    w = max(v.w + 1, SymInt.width_for(0, base**nd))
+    ds = [z3.BitVec("%s.%d" % (name, i), w) for i in range(nd)]
+    total = z3.BitVecVal(0, w)
+    for d in ds:
+        ctx.add_c(z3.ULE(d, base - 1))
+        total = total * base + d
+    ctx.add_c(total == v.ext(w))
+    return ds, w
+
+
 def int_to_str(v):
     """decimal rendering of a symbolic int: fork on sign and digit count, digits stay symbolic"""
+    if isinstance(v, int):
+        return str(v)
+    hit = _lookup_decimal(v)
+    if hit is not None:
+        cells = list(hit)
+        while len(cells) > 1:
+            c = cells[0]
+            if (c == 48) if isinstance(c, int) else truth(mkbool(c == 48)):
+                cells.pop(0)  # str(int) has no leading zeros
+            else:
+                break
+        return SymStr(cells)
     if truth(SymInt.cmp("<", v, 0)):
         return SymStr([45] + seq_cells(int_to_str(binop("-", 0, v)), SymStr))
     nd = 1
     while truth(SymInt.cmp(">=", v, 10**nd)):
         nd += 1
+    ds, w = _digits(v, nd, 10)
     cells = []
-    for i in range(nd - 1, -1, -1):
-        d = binop("%", binop("//", v, 10**i), 10)
-        if isinstance(d, int):
-            cells.append(48 + d)
-        else:
-            cells.append(z3.simplify(z3.Extract(20, 0, d.ext(max(d.w, 21))) + 48))
+    for d in ds:
+        e = z3.Extract(20, 0, d) if w >= 21 else z3.ZeroExt(21 - w, d)
+        cells.append(z3.simplify(e + 48))
     return SymStr(cells)
 
 
@@ -372,3 +427,159 @@ def seq_count(self, sub):
 
 
 SymSeq.count = seq_count
+
+
+# ----------------------------------------------------------------------------------------------------------------------
+# formatting: str.format / f-string specs / % on symbolic ints and strings
+# ----------------------------------------------------------------------------------------------------------------------
+
+import re as _re_fmt
+
+_SPEC = _re_fmt.compile(r"^(#?)(0?)(\d*)([dxX]?)$")
+
+
+def int_to_hex(v, upper=False):
+    if isinstance(v, int):
+        return format(v, "X" if upper else "x")
+    if truth(SymInt.cmp("<", v, 0)):
+        return SymStr([45] + seq_cells(int_to_hex(binop("-", 0, v), upper), SymStr))
+    nd = 1
+    while truth(SymInt.cmp(">=", v, 16**nd)):
+        nd += 1
+    cells = []
+    base = 55 if upper else 87
+    w = max(v.w, 4 * nd)
+    e = v.ext(w)
+    for i in range(nd - 1, -1, -1):
+        nib = z3.ZeroExt(17, z3.Extract(4 * i + 3, 4 * i, e))
+        c = z3.simplify(z3.If(z3.ULT(nib, 10), nib + 48, nib + base))
+        cells.append(c.as_long() if z3.is_bv_value(c) else c)
+    return SymStr(cells)
+
+
+def fmt_value(x, spec=""):
+    """format(x, spec) for the specs the repository uses; x may be symbolic"""
+    x = unwrap(x)
+    spec = unwrap(spec) if spec is not None else ""
+    if not symx.is_sym(x) and not getattr(type(x), "__symx_model__", False):
+        return format(x, spec)
+    if isinstance(x, SymStr):
+        if spec not in ("", "s"):
+            raise Unsupported("format spec %r on symbolic str" % spec)
+        return x
+    if isinstance(x, SymInt):
+        m = _SPEC.match(spec)
+        if not m:
+            raise Unsupported("format spec %r on symbolic int" % spec)
+        alt, zero, width, kind = m.groups()
+        body = int_to_str(x) if kind in ("", "d") else int_to_hex(x, kind == "X")
+        cells = list(seq_cells(body, SymStr))
+        neg = bool(cells) and cells[0] == 45
+        if neg:
+            cells = cells[1:]
+        prefix = [ord("0"), ord(kind)] if alt and kind in ("x", "X") else []
+        w = int(width) if width else 0
+        padn = max(0, w - len(cells) - len(prefix) - (1 if neg else 0))
+        if zero:
+            cells = ([45] if neg else []) + prefix + [48] * padn + cells
+        else:
+            cells = [32] * padn + ([45] if neg else []) + prefix + cells
+        return SymStr(cells)
+    s = m_str(x)
+    if spec not in ("", "s"):
+        raise Unsupported("format spec %r on %s" % (spec, type(x).__name__))
+    return s
+
+
+def str_format(fmt, *args, **kwargs):
+    import string
+
+    out = []
+    auto = 0
+    sym = False
+    for lit, field, spec, conv in string.Formatter().parse(fmt):
+        if lit:
+            out.append(lit)
+        if field is None:
+            continue
+        if conv not in (None, "s"):
+            if conv == "r":
+                pass
+            else:
+                raise Unsupported("format conversion !%s" % conv)
+        if field == "":
+            v = args[auto]
+            auto += 1
+        elif field.isdigit():
+            v = args[int(field)]
+        else:
+            name, _, attr = field.partition(".")
+            v = kwargs[name]
+            if attr:
+                raise Unsupported("attribute access in format field")
+        if conv == "r":
+            v = symx.BUILTIN_MODELS["repr"](v)
+        r = fmt_value(v, spec or "")
+        if isinstance(r, SymStr):
+            sym = True
+        out.append(r)
+    if not sym:
+        return "".join(out)
+    cells = []
+    for p in out:
+        cells.extend(seq_cells(p, SymStr))
+    return SymStr(cells)
+
+
+def _getattr_format(self, obj, name):
+    if isinstance(obj, str) and name == "format":
+        return lambda *a, **k: str_format(obj, *a, **k)
+    return NOT_HANDLED
+
+
+GETATTR_HOOKS.append(_getattr_format)
+SymStr.format = lambda self, *a, **k: (_ for _ in ()).throw(Unsupported("format on a symbolic format string"))
+
+
+def e_JoinedStr2(self, e, env):
+    parts = []
+    symbolic = False
+    for v in e.values:
+        if isinstance(v, ast.Constant):
+            parts.append(v.value)
+            continue
+        x = unwrap(self.ev(v.value, env))
+        if v.conversion == ord("r"):
+            x = symx.BUILTIN_MODELS["repr"](x)
+        elif v.conversion == ord("s"):
+            x = m_str(x)
+        elif v.conversion not in (-1, None):
+            raise Unsupported("f-string conversion")
+        spec = self.ev(v.format_spec, env) if v.format_spec else ""
+        r = fmt_value(x, spec)
+        if isinstance(r, SymStr):
+            symbolic = True
+        parts.append(r)
+    if symbolic:
+        out = []
+        for p in parts:
+            out.extend(seq_cells(p, SymStr))
+        return SymStr(out)
+    return "".join(parts)
+
+
+Interp.e_JoinedStr = e_JoinedStr2
+
+
+def m_hex(x):
+    if isinstance(x, SymInt):
+        r = int_to_hex(x)
+        cells = seq_cells(r, SymStr)
+        if cells and cells[0] == 45:
+            return SymStr([45, 48, 120] + cells[1:])
+        return SymStr([48, 120] + cells)
+    return hex(x)
+
+
+m_hex.__symx_model__ = True
+symx.BUILTIN_MODELS["hex"] = m_hex
